@@ -355,7 +355,7 @@ class Gen(object):
     def env(self, depth, math):
         rng = self.rng
         if self.v.unknown_ok and rng.random() < self.p['unknown']:
-            return ('E', rng.choice(['zzenv', 'myenv']), [], self.block(depth + 1, math))
+            return ('E', rng.choice(['zzenv', 'myenv', 'un-known', 'zz*', 'u.v_w:x/y']), [], self.block(depth + 1, math))
         names = sorted(n for n, d in self.v.envs.items()
                        if ((d.get('math_only') or not d.get('math')) if math else not d.get('math_only')))
         if not names:
